@@ -6,7 +6,7 @@
    boolean operators, calls, subscripts, displays, comprehensions, lambda, conditional expressions, f-strings, statements,
    float formatting, token spacing) is decided by the strict round-trip oracle only: see DESIGN 5.2. *)
 From Coq Require Import String.
-From PM Require Import Model.Base Model.SyntaxBase Gen.PrecTable Model.Syntax Proofs.SyntaxProofs Model.IntLit Proofs.IntLitProofs Model.MiniString Proofs.MiniStringProofs Model.StrDecode Proofs.StrDecodeProofs Model.PipelineBase Gen.Pipeline Gen.TokenRules.
+From PM Require Import Model.Base Model.SyntaxBase Gen.PrecTable Model.Syntax Proofs.SyntaxProofs Model.IntLit Proofs.IntLitProofs Model.MiniString Proofs.MiniStringProofs Model.StrDecode Proofs.StrDecodeProofs Model.FStr Model.FStrValue Proofs.FStrValueProofs Model.PipelineBase Gen.Pipeline Gen.TokenRules.
 Open Scope bool_scope.
 Open Scope nat_scope.
 
@@ -72,3 +72,13 @@ Example C02_string_example :
   Forall code_point s /\ decode_short 39%N (to_short true 39%N s ++ [39; 43]%N) = Some (s, [43]%N)
   /\ to_short true 39%N s = [92;39; 92;92; 92;110; 92;120;48;48; 92;114; 92;117;48;48;101;57; 92;117;52;101;50;100; 92;85;48;48;48;49;102;54;48;48; 34]%N.
 Proof. cbv zeta. split; [repeat constructor|]. split; vm_compute; reflexivity. Qed.
+
+(* string constants NESTED IN AN F-STRING replacement field (Python 3.12+): the text f_string.Str evaluates and writes
+   (Model/FStr.v: the value cut into literals, the quote switched whenever the next character is the current quote
+   character; compared with the real class by leg Q) consists of literals whose decoded values, concatenated as the
+   interpreter concatenates adjacent literals, are exactly the original string - for every string of code points and
+   each of the four starting quotes *)
+Theorem C02_fstring_nested_str_value : forall start s, In start full_quotes -> Forall code_point s ->
+  exists txt, str_candidate start s = Some txt /\ lits_value txt s.
+Proof. exact str_candidate_value. Qed.
+Print Assumptions C02_fstring_nested_str_value.
